@@ -336,7 +336,22 @@ func (t *Dense) RollAxis(axis, start int, safe bool) (retVal *Dense, err error) 
 
 // returns the new index given the old index
 func (t *Dense) transposeIndex(i int, transposePat, strides []int) int {
-	oldCoord, err := Itol(i, t.oshape(), t.ostrides())
+	var oldCoord []int
+	var err error
+	if t.o.IsColMajor() {
+		// Itol peels the axes off outermost first, which for column-major strides is the last axis
+		oshape, ostrides := t.oshape(), t.ostrides()
+		oldCoord = make([]int, len(ostrides))
+		rem := i
+		for d := len(ostrides) - 1; d >= 0; d-- {
+			oldCoord[d], rem = divmod(rem, ostrides[d])
+			if oldCoord[d] >= oshape[d] {
+				err = errors.Errorf(indexOOBAxis, d, oldCoord[d], oshape[d])
+			}
+		}
+	} else {
+		oldCoord, err = Itol(i, t.oshape(), t.ostrides())
+	}
 	if err != nil {
 		err = errors.Wrapf(err, "transposeIndex ItoL failure. i %d original shape %v. original strides %v", i, t.oshape(), t.ostrides())
 		panic(err)
